@@ -132,6 +132,7 @@ func runC18(r *mon.Run, replay string) {
 	}
 
 	phaseLimits(r)
+	phaseStall(r)
 	phaseCaps(r)
 	phaseShutdown(r)
 	join := startDeadlockScenarios(r)
@@ -193,6 +194,10 @@ func runReplay(r *mon.Run, path string) {
 			var c LimitCase
 			json.Unmarshal(h.Case, &c)
 			runLimitCase(r, c)
+		case "stall":
+			var c StallCase
+			json.Unmarshal(h.Case, &c)
+			runStallCase(r, c)
 		case "inbound-cap":
 			var c InboundCapCase
 			json.Unmarshal(h.Case, &c)
